@@ -1398,6 +1398,7 @@ func runC16(c *Ctx) {
 			}
 		}
 	}
+	longRawLines(c)
 	// fixed shapes named in the property text
 	for _, text := range []string{"1", "null", `"a"`, "[]", "{}", "[[]]", "[{}]", `{"a":[]}`, `{"a":{}}`, "[[],[]]", "[[[]]]",
 		"[1,[2,[3]],4]", `{"b":1,"a":{"d":[],"c":2},"e":[{"f":null}]}`, "[[1],2]", `[{"a":1},{"b":2}]`, "1 2 3", "[] {} 0",
@@ -1405,6 +1406,48 @@ func runC16(c *Ctx) {
 		seekableStdin = false
 		streamChecks(c, text, findNums(text), allCuts(len(text)))
 	}
+}
+
+// longRawLines: -R / -Rs / -nR with lines around every buffer size a line reader could have (bufio.Reader 4096,
+// the 16 KiB input window, bufio.Scanner's 64 KiB token limit, 1 MiB), each followed by further lines: every line must come
+// out, whole, and -Rs must equal the text.  Implementation-only oracle (the lines never reach the extracted model), every tier.
+func longRawLines(c *Ctx) {
+	sizes := []int{4095, 4096, 4097, 8191, 8192, 16383, 16384, 16385, 32768, 65535, 65536, 65537, 70000, 131072, 1 << 20}
+	for i, n := range sizes {
+		terms := []string{"\n", "\r\n", ""}
+		term := terms[i%3]
+		text := "first\n" + longLine(c.Rng, n) + "\n" + "after\n" + longLine(c.Rng, n+1) + "\nlast" + term
+		var want []any
+		ls := strings.Split(text, "\n")
+		if ls[len(ls)-1] == "" {
+			ls = ls[:len(ls)-1]
+		}
+		for _, l := range ls {
+			want = append(want, l)
+		}
+		for _, sk := range []bool{false, true} {
+			seekableStdin = sk
+			rr := runCLI([]string{"-R", "-c", "."}, text)
+			got, ok := decodeAll(rr.stdout)
+			if !ok || rr.code != 0 || !reflect.DeepEqual(got, want) {
+				c.Violation("gojq -R -c . <<< first\\n + %d-byte line + after\\n + %d-byte line + last (seekable stdin %v) :: -R does not yield the lines (status %d, %d of %d lines)", n, n+1, sk, rr.code, len(got), len(want))
+			}
+			rs := runCLI([]string{"-Rs", "-c", "."}, text)
+			got, ok = decodeAll(rs.stdout)
+			if !ok || rs.code != 0 || len(got) != 1 || got[0] != text {
+				c.Violation("gojq -Rs -c . <<< text with %d-byte lines (seekable stdin %v) :: -Rs does not yield the whole text", n, sk)
+			}
+			rn := runCLI([]string{"-nR", "-c", "[inputs | length]"}, text)
+			got, ok = decodeAll(rn.stdout)
+			if !ok || rn.code != 0 || len(got) != 1 {
+				c.Violation("gojq -nR -c '[inputs | length]' <<< text with %d-byte lines (seekable stdin %v) :: inputs does not deliver every line", n, sk)
+			} else if a, _ := got[0].([]any); len(a) != len(want) {
+				c.Violation("gojq -nR -c '[inputs | length]' <<< text with %d-byte lines (seekable stdin %v) :: %d of %d lines", n, sk, len(a), len(want))
+			}
+		}
+		c.Count("raw:longline")
+	}
+	seekableStdin = false
 }
 
 // number spans of a hand-written text without numbers inside strings
